@@ -79,7 +79,8 @@ impl GhostLock {
         }
     }
     pub fn lock(&self) -> Result<GhostGuard<'_>, ()> {
-        assert!(!unsafe { TRY_LOCK_BUSY }, "setoption blocks on the persistent-state lock while a search holds it");
+        // waiting for a search that has been told to stop ends at its next poll; waiting for one that has not may never end
+        assert!(!unsafe { TRY_LOCK_BUSY } || unsafe { STOP_REQUESTED }, "setoption blocks on the persistent-state lock while a search that was not told to stop holds it");
         Ok(GhostGuard(unsafe { &mut *self.0.get() }))
     }
 }
@@ -91,12 +92,49 @@ impl GhostReporter {
         }
     }
 }
+/// CONTRACT of the stop latch (util::sync::LockLatch): wait() returns only once SOMEONE sets the latch -- i.e. it is already
+/// set, or a search thread is in flight that will set it when it has reported its move; otherwise the input thread is stuck
+/// for good and `isready` is never answered again
+pub static mut LATCH_SET: bool = false;
+pub static mut SEARCH_IN_FLIGHT: bool = false;
+pub struct GhostLatch;
+impl GhostLatch {
+    pub fn wait(&self) {
+        assert!(unsafe { LATCH_SET || SEARCH_IN_FLIGHT }, "setoption waits on a stop latch that nobody will set");
+        unsafe {
+            // the search thread has reported its move and set the latch: it releases the lock right after
+            if SEARCH_IN_FLIGHT {
+                SEARCH_IN_FLIGHT = false;
+                TRY_LOCK_BUSY = false;
+                LATCH_SET = true;
+            }
+        }
+    }
+    pub fn set(&self) {
+        unsafe { LATCH_SET = true; }
+    }
+    pub fn reset(&self) {
+        unsafe { LATCH_SET = false; }
+    }
+}
+/// the stop handle of the most recent `go` (kept after the search has ended by itself)
+pub struct GhostControl;
+pub static mut STOP_REQUESTED: bool = false;
+impl GhostControl {
+    pub fn stop(&self) {
+        unsafe { STOP_REQUESTED = true; }
+    }
+}
 pub struct Uci {
     pub options: EngineOptions,
     pub persistent_state: GhostLock,
     pub reporter: GhostReporter,
+    pub control: Option<GhostControl>,
+    pub is_stopped: GhostLatch,
 }
 impl Uci {
+    // helper methods of the real impl other than the command loop (none on the pinned tree): compiled against the ghost fields
+    //@@ methods-except: engine/uci/mod.rs :: impl Uci :: execute, run_line, main_loop_stdin, main_loop_args, main_loop
     //@@ closure: engine/uci/mod.rs :: impl Uci / fn execute :: UciCommand::SetOption { name, value } => => pub fn setoption_arm(&mut self, name: &GStr<'_>, value: &GStr<'_>) -> Result<ExecuteResult, String> ;; Ok(ExecuteResult::KeepGoing)
 }
 
@@ -135,6 +173,11 @@ fn check_arm(which: u8) {
     let value = GStr(unsafe { std::str::from_utf8_unchecked(&buf[..nd]) });
     unsafe {
         TRY_LOCK_BUSY = kani::any();
+        // any state the protocol can be in: a stop handle may be left over from a search that ended by itself, with the
+        // latch re-armed by ucinewgame and no search in flight
+        LATCH_SET = kani::any();
+        STOP_REQUESTED = false;
+        SEARCH_IN_FLIGHT = TRY_LOCK_BUSY;
         RESIZED_TO = None;
         RESIZES = 0;
         REPORTS = 0;
@@ -143,6 +186,8 @@ fn check_arm(which: u8) {
         options: EngineOptions { hash_size: 16, threads: 1, move_overhead: 0, syzygy_path: None },
         persistent_state: GhostLock(std::cell::UnsafeCell::new(GhostState { tt: GhostTT, tablebase: GhostTB })),
         reporter: GhostReporter,
+        control: if kani::any() { Some(GhostControl) } else { None },
+        is_stopped: GhostLatch,
     };
     let r = uci.setoption_arm(&name, &value);
     let busy = unsafe { TRY_LOCK_BUSY };
@@ -258,6 +303,8 @@ fn vk_c13_canary_setoption_arm() {
         options: EngineOptions { hash_size: 16, threads: 1, move_overhead: 0, syzygy_path: None },
         persistent_state: GhostLock(std::cell::UnsafeCell::new(GhostState { tt: GhostTT, tablebase: GhostTB })),
         reporter: GhostReporter,
+        control: if kani::any() { Some(GhostControl) } else { None },
+        is_stopped: GhostLatch,
     };
     let r = uci.setoption_arm(&name, &value);
     assert!(unsafe { RESIZES } == 0); // must FAIL
